@@ -949,6 +949,13 @@ class Interp(ExprMixin):
         extra = dict(extra or {})
         extra["site_func"] = site_func
         extra["site_node"] = site_node
+        # the primitive's own node and every call node through which this frame was reached, innermost first
+        chain = [(frame.func, node)]
+        fr_ = frame
+        while fr_.parent is not None and fr_.callnode is not None:
+            chain.append((fr_.parent.func, fr_.callnode))
+            fr_ = fr_.parent
+        extra["callchain"] = chain
         uid = (frame.func.qual, getattr(node, "lineno", 0), getattr(node, "col_offset", 0), frame.ctx, st.handling)
         ev = Event(kind=kind, prim=prim, paths=paths, classes=classes, func=frame.func, node=node,
                    line=getattr(node, "lineno", 0), ctx=frame.ctx, entry=self.entry, mode=self.mode,
